@@ -23,44 +23,6 @@ open Scalar
 set_option linter.unusedSectionVars false
 variable {R G : Type} [Scalar R] [RandGen G R]
 
-theorem Fits.flatten_length {ps : List Req} {bs : List (List R)} (h : Fits ps bs) : bs.flatten.length = outputSize ps := by
-  induction ps generalizing bs with
-  | nil => cases bs <;> simp [Fits] at h; simp [outputSize]
-  | cons p ps ih =>
-    cases bs with
-    | nil => simp [Fits] at h
-    | cons b bs =>
-      obtain ⟨h1, h2⟩ := h
-      have := ih h2
-      simp only [List.flatten_cons, List.length_append, outputSize, List.map_cons, List.sum_cons] at this ⊢
-      rw [this, Req.size_of_size? h1]
-
-/-- the `i`-th block of a flattened block list sits at the `i`-th prefix sum -/
-theorem Fits.readBlock_nth {ps : List Req} {bs : List (List R)} (h : Fits ps bs) (s : Nat) (pre : List R) (hs : pre.length = s)
-    (i : Nat) (p : Req) (b : List R) (hp : ps[i]? = some p) (hb : bs[i]? = some b) :
-    ∃ e, (entriesFrom s ps)[i]? = some e ∧ readBlock e p.size (pre ++ bs.flatten) = b := by
-  induction ps generalizing bs s pre i with
-  | nil => simp at hp
-  | cons p0 ps ih =>
-    cases bs with
-    | nil => simp at hb
-    | cons b0 bs =>
-      obtain ⟨h1, h2⟩ := h
-      cases i with
-      | zero =>
-        simp only [List.getElem?_cons_zero, Option.some.injEq] at hp hb
-        subst hp; subst hb
-        refine ⟨s, by simp [entriesFrom], ?_⟩
-        subst hs
-        rw [List.flatten_cons, ← List.append_assoc, readBlock_append pre b0 bs.flatten _ (Req.size_of_size? h1).symm]
-      | succ i =>
-        simp only [List.getElem?_cons_succ] at hp hb
-        have hlen : (pre ++ b0).length = s + p0.size := by
-          rw [List.length_append, hs, Req.size_of_size? h1]
-        obtain ⟨e, he, hr⟩ := ih h2 (s + p0.size) (pre ++ b0) hlen i hp hb
-        refine ⟨e, by simpa [entriesFrom] using he, ?_⟩
-        rw [List.flatten_cons, ← List.append_assoc]; exact hr
-
 /-- **C01.1** a batched request returns exactly the announced number of values -/
 theorem C01_output_size (w : World R) (pt : P3 R) (depth : R) (ps : List Req) :
     Post (G := G) (w.props3 pt depth ps) (fun out => out.length = outputSize ps ∧ outputSize? ps = .ok (outputSize ps)) := by
